@@ -489,13 +489,14 @@ func c07ShortCircuitAs(p *Program, r *Report, m *vmModel, va *evalAnalysis, rule
 					if !ok {
 						continue
 					}
-					onTrue := id.Succs[0] == d || id.Succs[0].Dominates(d)
+					onTrue := edgeOnly(id, 0, d)
+					onFalse := edgeOnly(id, 1, d)
 					if bo, ok := iff.Cond.(*ssa.BinOp); ok && isErrorType(bo.X.Type()) && isNilConst(bo.Y) {
-						if (bo.Op == token.EQL && onTrue) || (bo.Op == token.NEQ && !onTrue) {
+						if (bo.Op == token.EQL && onTrue) || (bo.Op == token.NEQ && onFalse) {
 							errNil = true
 						}
 					}
-					if callee := vmCallee(iff.Cond, m); callee != nil && callee.Signature.Results().Len() == 1 && !onTrue {
+					if callee := vmCallee(iff.Cond, m); callee != nil && callee.Signature.Results().Len() == 1 && onFalse {
 						notNil = true
 					}
 				}
